@@ -390,7 +390,14 @@ def mpi_body(ctx, case):
         return
     sidx = tags_of(sw, unres, case, ctx, "mpi:serial")
     if sidx is not None and not np.array_equal(idx, sidx):
-        ctx.fail("mpi:differs-from-serial", case, f"R={R} ranks chose {idx.tolist()}, serial comb on the concatenation chose {sidx.tolist()}")
+        # the R-rank routine divides by nwalkers and then by size, the serial one by N once: a tooth within rounding of a break-point may
+        # legitimately differ (both outputs were validated against the exact comb above); anything else is a disagreement
+        allowed, _ = allowed_indices(np.abs(np.asarray(weights)), zeta)
+        diff = [k for k in range(N) if idx[k] != sidx[k]]
+        if any(len(allowed[k]) == 1 for k in diff):
+            ctx.fail("mpi:differs-from-serial", case, f"R={R} ranks chose {idx.tolist()}, serial comb on the concatenation chose {sidx.tolist()}")
+        else:
+            ctx.count("mpi-vs-serial:differs-only-at-rounding-ambiguous-teeth")
     if not np.allclose(owt, np.asarray(swt), rtol=1e-14, atol=0):
         ctx.fail("mpi:differs-from-serial", case, f"weights {owt.tolist()} vs serial {np.asarray(swt).tolist()}")
 
